@@ -1,4 +1,96 @@
 import VermouthProps.C16
 import Generated.C16Layout
+/-!
+# C16 — table theorems, re-checked on every run against the layout extracted from the repository
+
+`Generated/C16Layout.lean` holds the format strings of `write_pdb_string` / `write_gro` and the
+column tables of `PDBParser._atom`, `PDBParser.do_conect` and `read_gro` as they are in the
+source NOW.  Everything here is closed by `decide` on those tables, or instantiates a generic
+theorem of `VermouthProps/C16.lean` with them.
+-/
 namespace C16
+open Layout
+
+/-- every reader column of `fields` covers the writer field of the same name (and blank literal
+columns besides), with a blank fill character and matching type letter / reader type -/
+def slicesAgree (fmt : List Seg) (slices : List RSlice) : Bool :=
+  slices.all fun sl =>
+    match covers fmt sl.name sl.start sl.stop with
+    | some sp => decide (sp.fill = ' ') &&
+        (match sp.ty, sl.ty with
+         | .d, .int => true
+         | .s, .str => true
+         | .f, .float => decide (1 ≤ sp.prec)
+         | _, _ => false)
+    | none => false
+
+/-- every field of the format string is read by some reader column -/
+def allFieldsRead (fmt : List Seg) (slices : List RSlice) : Bool :=
+  fmt.all fun
+    | .lit _ => true
+    | .fld n _ => slices.any fun sl => sl.name = n
+
+/-- the GRO reader's columns once it has detected `w`-column coordinates, no velocities -/
+def groSlices (w : Nat) : List RSlice :=
+  (groNames.zip (groTypes.zip (groSliceBounds 0 (groWidths ++ [w, w, w])))).map
+    fun (n, t, b) => (⟨n, t, b.1, b.2⟩ : RSlice)
+
+/-! ## record_length_const on the extracted format strings -/
+
+theorem atom_fmt_allTrunc : allTrunc atomFmt = true ∧ allTrunc terFmt = true ∧ allTrunc groFmt = true := by
+  decide
+
+/-- every ATOM record is 80 columns, every TER record 27, every GRO atom line 44 — whatever the
+values (over-long names, six-digit residue numbers, overflowing coordinates) -/
+theorem record_length_tables (env : Env) :
+    (render atomFmt env).length = 80 ∧ (render terFmt env).length = 27 ∧ (render groFmt env).length = 44 := by
+  refine ⟨?_, ?_, ?_⟩
+  · rw [record_length_const _ _ atom_fmt_allTrunc.1]; decide
+  · rw [record_length_const _ _ atom_fmt_allTrunc.2.1]; decide
+  · rw [record_length_const _ _ atom_fmt_allTrunc.2.2]; decide
+
+/-! ## layouts_agree -/
+
+/-- **layouts_agree** (PDB): each column of `PDBParser._atom` covers the like-named field of the ATOM
+format string and only blanks besides; each field written is read. -/
+theorem layouts_agree_pdb :
+    slicesAgree atomFmt (mkSlices 0 pdbReaderFields) = true ∧
+    allFieldsRead atomFmt (mkSlices 0 pdbReaderFields) = true := by
+  decide
+
+/-- **layouts_agree** (GRO): with the 8-column coordinates that `write_gro` produces, the columns of
+`read_gro` coincide with the fields of the format string. -/
+theorem layouts_agree_gro :
+    slicesAgree groFmt (groSlices 8) = true ∧ allFieldsRead groFmt (groSlices 8) = true := by
+  decide
+
+/-- the CONECT writer and reader agree on where numbers start and how wide they are, numbers
+are right-aligned blank-filled `t`-truncated integers, four partners per record -/
+theorem layouts_agree_conect :
+    conectPrefix.length = conectStart ∧ conectNum.width = conectWidth ∧ 1 ≤ conectWidth ∧
+    conectNum.ty = .d ∧ conectNum.fill = ' ' ∧ conectNum.trunc = true ∧ conectNum.leftAligned = false ∧
+    conectChunk ≠ 0 ∧ 10 ^ conectWidth = 100000 := by
+  decide
+
+/-! ## conect_roundtrip on the extracted layout -/
+
+/-- **conect_roundtrip.** With the layout in the source now, every CONECT record whose serials are
+≤ 99999 is read back as exactly the serials written. -/
+theorem conect_roundtrip_tables (ids : List Nat) (hne : ids ≠ []) (h : ∀ i ∈ ids, i ≤ 99999) :
+    conectIds pdb (conectLine pdb ids) = .ok (ids.map Int.ofNat) := by
+  obtain ⟨h1, h2, h3, h4, h5, h6, h7, _, h9⟩ := layouts_agree_conect
+  apply conect_roundtrip pdb ids hne h1 h2 h3 h4 h5 h6 h7
+  intro i hi
+  have := h i hi
+  show i < 10 ^ conectWidth
+  rw [h9]; omega
+
+/-- F-C16-1 (repaired in the repository): the unrepaired writer put a blank and a 4-column
+`t`-truncated number per serial; serial 10000 came out as `0000` and the reader (same columns
+as now) gets serial 0 back, so the bond 9999–10000 is lost. -/
+theorem conect_4wide_loses_bonds :
+    (conectIds pdb (['C', 'O', 'N', 'E', 'C', 'T'] ++ ' ' :: renderField ⟨' ', .right, 4, 0, .d, true⟩ (.int 9999)
+        ++ ' ' :: renderField ⟨' ', .right, 4, 0, .d, true⟩ (.int 10000))).toOption = some [9999, 0] := by
+  decide +kernel
+
 end C16
